@@ -41,6 +41,7 @@ def run(tier):
                     {"observation": o, "requirement": req})
     grpc_leg(c, sc)
     restore_leg(c, sc)
+    lifecycle_leg(c, sc)
     n_dec = sum(len(o["d"]) for o in obs)
     reached = [o for o in obs if any(o["tokstate"][t] == "valid" and d == "handled" for t, d in o["d"].items())]
     c.count(n_dec, [{"p": o["path"], "m": o["method"]} for o in reached])
@@ -98,6 +99,40 @@ def restore_leg(c, sc):
                     "a token whose life time (3 s) had passed was accepted by a node restarted from a snapshot taken while the "
                     "token was valid: GET /nacos/v1/cs/configs answered %s" % json.dumps(r["d"]),
                     {"decision": r["d"], "token_life_time_s": 3})
+
+
+def lifecycle_leg(c, sc):
+    """the time axis of 'a valid token' (TokenLife.tla): TLC checks that a token is refused after its life time however
+    often it was used (negative control: a remembered verification that every use refreshes), and the recorded life of
+    one real token on the real middleware - the same token every 400 ms from the login until 6 s after its life time -
+    is validated against it"""
+    mc = vlib.tlc_mc("TokenLife.tla", "MC_TokenLife.cfg", name="c16_life", workers=2)
+    vlib.require_actions(mc, ["Login", "Use", "Tick", "Restart"])
+    c.add_mc(mc)
+    n = vlib.tlc_mc("TokenLife.tla", "MC_TokenLife_defect.cfg", expect_violation="RefusedAfterExpiry", name="c16_life_neg", workers=2)
+    c.add_negative_control("TokenLife where every use refreshes the remembered verification violates RefusedAfterExpiry", n["violated"])
+    d = os.path.join(sc, "life")
+    res = vlib.harness(["authz", "c16-lifecycle"], timeout=300, env={"RNVERIF_DATA_DIR": d})
+    ev = [r for r in res if r.get("event") in ("login", "use")]
+    uses = [e for e in ev if e["event"] == "use"]
+    if len(uses) < 12 or not any(e["decision"] == "served" for e in uses[:3]):
+        raise ToolError("life-cycle leg: the token never worked or too few requests: %s" % uses[:5])
+    tr = vlib.write_ndjson(os.path.join(sc, "life.ndjson"), ev)
+    tv = vlib.tlc_tv("Trace_TokenLife.tla", "Trace_TokenLife.cfg", tr, name="c16_life_tv")
+    c.count(len(uses), [{"life_cycle": "one token used every 400 ms across its expiry"}])
+    c.traces(1)
+    c.cov["life_cycle"] = [(e["t_ms"], e["decision"]) for e in uses]
+    if not tv["accepted"]:
+        ln = tv.get("rejected_line") or {}
+        c.violation("C16:NoDataWithoutToken@token_used_across_its_expiry",
+                    "a token with a life time of 3 s that was presented every 400 ms was still served %s ms after the login "
+                    "(the store's clock has whole seconds: 1.6 s of slack are allowed): %s" % (ln.get("t_ms"), json.dumps(ln)),
+                    {"events": ev, "rejected": ln})
+    # binding control: the same trace with the last request turned into 'served' must be rejected
+    bad = [dict(e) for e in ev]
+    bad[-1]["decision"] = "served"
+    tvb = vlib.tlc_tv("Trace_TokenLife.tla", "Trace_TokenLife.cfg", vlib.write_ndjson(os.path.join(sc, "life_bad.ndjson"), bad), name="c16_life_tvneg")
+    c.add_negative_control("recorded token life with the last request (6 s after expiry) turned into 'served' is rejected", not tvb["accepted"])
 
 
 def grpc_leg(c, sc):
